@@ -6,6 +6,7 @@ import (
 	"os"
 	"path/filepath"
 	"strings"
+	"sync"
 	"time"
 
 	"github.com/asticode/go-astikit"
@@ -17,6 +18,26 @@ import (
 
 // Op is one independent call: builds its own fresh input every time it runs and returns the
 // canonical rendering of what the call returned.
+var (
+	fileSeqMu sync.Mutex
+	fileSeq   = map[string]int{}
+)
+
+func nextFileSeq(k string) int {
+	fileSeqMu.Lock()
+	defer fileSeqMu.Unlock()
+	n := fileSeq[k]
+	fileSeq[k] = n + 1
+	return n
+}
+
+// resetFileSeq: called at the start of every explored execution.
+func resetFileSeq() {
+	fileSeqMu.Lock()
+	fileSeq = map[string]int{}
+	fileSeqMu.Unlock()
+}
+
 type Op struct {
 	Name string
 	Run  func(scratch string) string
@@ -339,6 +360,29 @@ func Ops() []Op {
 			b, _ := os.ReadFile(q)
 			return string(b)
 		}},
+	}
+	// two callers writing their own lists to files of one directory whose names differ in the extension only
+	// (movie.srt, movie.vtt): independent calls as far as the property goes - anything they share is the package's
+	for _, ext := range []string{"srt", "vtt"} {
+		ext := ext
+		ops = append(ops, Op{"files-write-movie-" + ext, func(scratch string) string {
+			// the n-th call of this operation and the n-th call of its twin (since the last reset: once per explored
+			// execution) meet in one directory; two calls of the SAME operation never do - they would share a file
+			dir := filepath.Join(scratch, fmt.Sprintf("c20-shared-%d-%d", os.Getpid(), nextFileSeq(ext)))
+			if err := os.MkdirAll(dir, 0o755); err != nil { // left behind (the twin may be about to use it); the run's scratch directory goes as a whole
+				return "mkdir: " + err.Error()
+			}
+			p := filepath.Join(dir, "movie."+ext)
+			defer os.Remove(p)
+			if err := richList("m" + ext).Write(p); err != nil {
+				return "write: " + err.Error()
+			}
+			b, err := os.ReadFile(p)
+			if err != nil {
+				return "read back: " + err.Error()
+			}
+			return string(b)
+		}})
 	}
 	for _, f := range corpus.WriteFormats {
 		ops = append(ops, failingWriteOp(f))
